@@ -279,7 +279,8 @@ def tick (s : St) (tx : Bytes) : St × Keepalive :=
 
 /-- `IceGatherer::probe_stun` (server-reflexive gathering): what it takes from the datagram it received for
 the request with transaction id `tx` (after the `fix:` that compares id, class and method) -/
-def probeAccept (tx : Bytes) (resp : Bytes) : Option Addr :=
+def probeAccept (tx : Bytes) (resp : Bytes) (fromServerIp : Bool := true) : Option Addr :=
+  if !fromServerIp then none else      -- `if from.ip() != addr.ip() { return Ok(None) }`
   match decode resp with
   | .ok d => if d.tx = tx ∧ d.cls = .success ∧ d.method = .binding then d.mapped else none
   | .error _ => none
